@@ -28,6 +28,18 @@ func (e *timeoutErr) Temporary() bool { return true }
 
 var ErrInjectedTimeout error = &timeoutErr{op: "read"}
 
+// errList is an error whose dynamic type is not comparable (like go/scanner.ErrorList): code that
+// compares error values with == panics on it. Is() gives errors.Is an identity test.
+type errList []string
+
+func (e errList) Error() string { return "gosim: injected failure list: " + e[0] }
+func (e errList) Is(target error) bool {
+	t, ok := target.(errList)
+	return ok && len(t) == len(e) && len(e) > 0 && &t[0] == &e[0]
+}
+
+var ErrInjectedList error = errList{"read failed"}
+
 // InjectedErr returns the error value a reader plan injects.
 func InjectedErr(kind string) error {
 	switch kind {
@@ -37,6 +49,8 @@ func InjectedErr(kind string) error {
 		return ErrInjectedUnexpEOF
 	case "timeout":
 		return ErrInjectedTimeout
+	case "uncomparable":
+		return ErrInjectedList
 	}
 	return ErrInjected
 }
